@@ -382,26 +382,37 @@ func ruleP11Det(p *Prog, r *Report) {
 
 // concatLeaves flattens a string concatenation tree.
 func concatLeaves(v ssa.Value, out *[]ssa.Value, depth int) {
+	concatLeavesV(v, out, depth, map[*ssa.Phi]bool{})
+}
+
+// (a string grown in a loop is a phi cycle: each phi is expanded once per path, so that the
+// parts appended in the loop body are listed once instead of until the depth runs out)
+func concatLeavesV(v ssa.Value, out *[]ssa.Value, depth int, onPath map[*ssa.Phi]bool) {
 	v = strip(v)
 	if depth < 12 {
 		if b, ok := v.(*ssa.BinOp); ok && b.Op == token.ADD {
-			concatLeaves(b.X, out, depth+1)
-			concatLeaves(b.Y, out, depth+1)
+			concatLeavesV(b.X, out, depth+1, onPath)
+			concatLeavesV(b.Y, out, depth+1, onPath)
 			return
 		}
 		if u, ok := v.(*ssa.UnOp); ok && u.Op == token.MUL {
 			if c := cellOf(u.X); c != nil {
 				// string built in a local variable: union of all stores
 				for _, s := range storesTo(c) {
-					concatLeaves(s.val, out, depth+1)
+					concatLeavesV(s.val, out, depth+1, onPath)
 				}
 				return
 			}
 		}
 		if ph, ok := v.(*ssa.Phi); ok {
-			for _, e := range ph.Edges {
-				concatLeaves(e, out, depth+1)
+			if onPath[ph] {
+				return // back at a phi that is being expanded: nothing new
 			}
+			onPath[ph] = true
+			for _, e := range ph.Edges {
+				concatLeavesV(e, out, depth+1, onPath)
+			}
+			delete(onPath, ph)
 			return
 		}
 	}
